@@ -8,6 +8,9 @@
 //   reader-vs-string                 the string entry point returned a value the reader entry point does not return
 //   trailing-whitespace-rejected     reader entry point stops before pure whitespace, string entry point throws
 //   trailing-garbage-accepted        reader entry point stops before a non-whitespace, non-comment byte, string entry point returns
+//   trailing-garbage-accepted:after-comment   default mode: whitespace and complete // comment lines follow the value, then a byte
+//                                    that is neither whitespace nor the start of a // comment, and the string entry point returns
+//   trailing-comment-rejected        default mode: only whitespace and // comments follow the value, string entry point throws
 //   and, when the independent RFC 8259 reader (refjson.hh) says the text is a standard document inside the stated domain,
 //   rejects-standard-document        phosg throws
 //   value:<diff class>               phosg's value differs (ints exact, other numbers 1e-9 relative, strings byte-equal...)
@@ -95,6 +98,21 @@ inline std::string clip(const std::string& t, size_t n = 120) { return jt::show_
 
 inline bool is_ws(char c) { return c == ' ' || c == '\t' || c == '\n' || c == '\r'; }
 
+// Offset of the first byte from `k` on that is neither whitespace nor inside a // comment; a comment runs from "//" to the next
+// line break (\n or \r - both end a comment inside a document too, see the ext subcheck) or to the end of the text.
+// A '/' that is not followed by a second '/' is not a comment.
+inline size_t skip_trailing_ws_and_comments(const std::string& t, size_t k) {
+  for (;;) {
+    while (k < t.size() && is_ws(t[k])) k++;
+    if (k + 1 < t.size() && t[k] == '/' && t[k + 1] == '/') {
+      k += 2;
+      while (k < t.size() && t[k] != '\n' && t[k] != '\r') k++;
+    } else {
+      return k;
+    }
+  }
+}
+
 inline std::string subdoc_class(const std::string& t) {
   if (t.empty()) return "empty";
   char c = t[0];
@@ -177,6 +195,15 @@ inline Finding check_text(const std::string& text, Tally* tally = nullptr, bool 
         if (o_str.threw()) return {"trailing-whitespace-rejected", std::string(mode) + " mode: only whitespace follows the value, parse(string) throws " + o_str.what + " on " + clip(text)};
       } else if (!o_str.threw() && (strict || text[k] != '/')) {
         return {"trailing-garbage-accepted", std::string(mode) + " mode: reader stops at offset " + std::to_string(o_rd.where) + " but parse(string) accepts the trailing data in " + clip(text)};
+      } else if (!strict) {
+        // default mode, the trailing data starts with '/': a // comment (documented extension) runs to the end of ITS line only.
+        // What follows the value is whitespace and // comments (the last one may lack its line break), or it is trailing data.
+        size_t g = skip_trailing_ws_and_comments(text, k);
+        if (g == text.size()) {
+          if (o_str.threw()) return {"trailing-comment-rejected", std::string("default mode: only whitespace and // comments follow the value, parse(string) throws ") + o_str.what + " on " + clip(text)};
+        } else if (!o_str.threw()) {
+          return {"trailing-garbage-accepted:after-comment", "default mode: reader stops at offset " + std::to_string(o_rd.where) + ", the // comment(s) after it end at offset " + std::to_string(g) + " but parse(string) accepts the data after them in " + clip(text)};
+        }
       }
     }
     if (in_domain) {
